@@ -469,4 +469,92 @@ example : (parse [⟨some 98, none, none, 2⟩] false [[112], [45, 98, 98], [112
     (parse [⟨some 98, none, none, 2⟩] false [[112], [45, 98, 98], [112, 49]]).doubleFree = false := by
   decide
 
+/-! ## one handle, several parses -/
+
+/-- building a tail onto an empty handle tail gives exactly the tokens, with their count -/
+theorem appendTail_fresh (l : List Str) : appendTail 0 none l = ((l.length : Int), ofList l) := by
+  have gen : ∀ (l t : List Str) (c : Int), l ≠ [] →
+      appendTail c (some t) l = (((t ++ l).length : Int), some (t ++ l)) := by
+    intro l
+    induction l with
+    | nil => intro t c h; exact absurd rfl h
+    | cons a r ih =>
+      intro t c _
+      simp only [appendTail, append, appendNosize, count]
+      cases r with
+      | nil => simp [appendTail]
+      | cons b r' => rw [ih (t ++ [a]) _ (by simp)]; simp
+  cases l with
+  | nil => rfl
+  | cons a r =>
+    simp only [appendTail, append, appendNosize, count]
+    cases r with
+    | nil => simp [appendTail, ofList]
+    | cons b r' => rw [gen (b :: r') [a] _ (by simp)]; simp [ofList]
+
+/-- **The reset.**  Whatever the handle held before (any earlier parses, any tail, any option
+    instances), after `parsec_cmd_line_parse` with a non-empty argument vector every result field
+    is the one of this parse alone: `free_parse_results` clears params, argv/argc, tail/tail count,
+    and the parse refills them. -/
+theorem handle_parse_reset (h : Handle) (ign : Bool) (argv : List Str) (hne : argv ≠ []) :
+    h.parse ign argv =
+      ((CmdLine.parse h.opts ign argv).rc, Handle.ofResult h.opts (CmdLine.parse h.opts ign argv)) := by
+  cases argv with
+  | nil => exact absurd rfl hne
+  | cons prog rest =>
+    simp only [Handle.parse, freeParseResults, CmdLine.parse, Handle.ofResult, appendTail_fresh]
+
+/-- `argc == 0` leaves the handle untouched -/
+theorem handle_parse_empty (h : Handle) (ign : Bool) : h.parse ign [] = (SUCCESS, h) := rfl
+
+inductive HOp where
+  | parse (ign : Bool) (argv : List Str)
+  | addOpt (e : Opt)
+
+def HOp.apply (h : Handle) : HOp → Handle
+  | .parse ign argv => (h.parse ign argv).2
+  | .addOpt e => (h.addOpt e).2
+
+def runOps (h : Handle) (ops : List HOp) : Handle := ops.foldl HOp.apply h
+
+/-- **After any history on one handle, the query results depend only on the last parse**: for every
+    sequence of parses and option additions followed by a parse of a non-empty vector, the handle
+    is the one a single parse with the then-current option table produces; so `get_tail` returns
+    exactly that parse's tail with its count, `get_argc/argv` its vector, and
+    `get_ninsts/get_param` its instances (`parse_wellformed`, `parse_queries` apply). -/
+theorem handle_last_parse_only (h : Handle) (ops : List HOp) (ign : Bool) (argv : List Str)
+    (hne : argv ≠ []) :
+    runOps h (ops ++ [.parse ign argv]) =
+      Handle.ofResult (runOps h ops).opts (CmdLine.parse (runOps h ops).opts ign argv) ∧
+    (runOps h (ops ++ [.parse ign argv])).getTail =
+      (((CmdLine.parse (runOps h ops).opts ign argv).tail.length : Int),
+        ofList (CmdLine.parse (runOps h ops).opts ign argv).tail) ∧
+    (∀ name, (runOps h (ops ++ [.parse ign argv])).ninsts name =
+      ninsts (runOps h ops).opts (CmdLine.parse (runOps h ops).opts ign argv) name) ∧
+    (∀ name inst idx, (runOps h (ops ++ [.parse ign argv])).getParam name inst idx =
+      getParam (runOps h ops).opts (CmdLine.parse (runOps h ops).opts ign argv) name inst idx) := by
+  have h1 : runOps h (ops ++ [.parse ign argv]) =
+      Handle.ofResult (runOps h ops).opts (CmdLine.parse (runOps h ops).opts ign argv) := by
+    simp only [runOps, List.foldl_append, List.foldl_cons, List.foldl_nil, HOp.apply]
+    rw [handle_parse_reset _ ign argv hne]
+  rw [h1]
+  refine ⟨rfl, ?_, fun _ => rfl, fun _ _ _ => rfl⟩
+  simp only [Handle.getTail, Handle.ofResult, copy_eq']
+
+/-- parses never change the option table; only `make_opt` does (appending) -/
+theorem handle_parse_opts (h : Handle) (ign : Bool) (argv : List Str) :
+    (h.parse ign argv).2.opts = h.opts := by
+  cases argv with
+  | nil => rfl
+  | cons p r => rfl
+
+/-- a parse that leaves a tail followed by a parse that leaves none: tail count 0 and NULL vector,
+    and the option instance of the first parse is gone -/
+example :
+    let h0 : Handle := (Handle.new.addOpt ⟨some 97, none, none, 1⟩).2
+    let h2 := runOps h0 [.parse false [[112], [45, 97], [120], [45, 45], [116]], .parse false [[112]]]
+    h2.getTail = (0, none) ∧ h2.ninsts [97] = 0 ∧ h2.getArgv 1 = none ∧ h2.argc = 1 ∧
+    (runOps h0 [.parse false [[112], [45, 97], [120], [45, 45], [116]]]).getTail = (1, some [[116]]) := by
+  decide
+
 end ParsecVerif.C39
